@@ -108,6 +108,8 @@ class RunBundler:
         # streams whose events are never re-taken after a rewind (interruptions, monitors, collect)
         self._unreplayed_streams: set[Any] = set()
         self._monitor_params: dict[Subscribable, tuple[Callback, dict]] = dict()  # noqa: C408  # cache of {obj: (cb, kwargs)}
+        # number of interruptions (pause, suspension) currently holding the monitors off
+        self._monitor_suspend_depth = 0
         # a cache of stream_resource uid to the data_keys that stream_resource collects for
         self._stream_resource_data_keys: dict[str, Iterable[str]] = dict()  # noqa: C408
         self.run_is_open = False
@@ -630,10 +632,20 @@ class RunBundler:
         self.reset_checkpoint_state()
 
     async def suspend_monitors(self):
+        self._monitor_suspend_depth += 1
+        if self._monitor_suspend_depth > 1:
+            # already suspended by an enclosing interruption
+            return
         for obj, (cb, kwargs) in self._monitor_params.items():  # noqa: B007
             obj.clear_sub(cb)
 
     async def restore_monitors(self):
+        if self._monitor_suspend_depth == 0:
+            # nothing was suspended; subscribing again would duplicate the callbacks
+            return
+        self._monitor_suspend_depth -= 1
+        if self._monitor_suspend_depth > 0:
+            return
         for obj, (cb, kwargs) in self._monitor_params.items():
             obj.subscribe(cb, **kwargs)
 
